@@ -19,18 +19,28 @@ from . import common, gen
 ID = "C20"
 LEAN_MODULES = ["DclabModel.Properties.C20"]
 RULE = ("seeded production histories of one scalar feature (float64 with NaN as prefix / suffix / "
-        "isolated / everywhere / nowhere, ±inf, large and tiny magnitudes, negative values; "
-        "uint32 and uint64 features; single events): every composition of N <= 4 (thorough: 7) "
-        "events and random compositions of up to 24 events into "
-        "append calls (writer kept open or re-opened), replace mode, removal of any subset of "
-        "the min/max/mean attributes with raw h5py, dclab-compress / -repack / -condense / "
-        "rtdc_copy, filtered export.hdf5, further appends afterwards; dclab-join of 2-4 files "
-        "given in shuffled order; hierarchy children under changing parent filters; a file that "
-        "gets the feature from a basin. After every step the stored attributes (raw h5py) are "
-        "compared with the Lean model, at the end ds[f].min()/max()/mean() with numpy "
-        "nanmin/nanmax of ds[f][:] (exact) and the exact rational mean (|diff| <= 1e-12 * largest "
-        "finite magnitude). distinct = distinct histories with >= 2 steps (or a join / child / "
-        "basin scenario) that contain at least one NaN or more than one append.")
+        "isolated / one block / everywhere / nowhere, +-inf, large and tiny magnitudes, negative "
+        "values; uint32 and uint64 features; single events). File histories: start = every "
+        "composition of N <= 4 (thorough: 7) events, random compositions of up to 36 events into "
+        "append calls (writer kept open or re-opened, CHUNK_SIZE_BYTES patched to 1 so that "
+        "dclab-written scalar datasets have 10-event chunks), or a dataset made with raw h5py "
+        "(explicit chunks 1/2/3/5/7/len/len+3/contiguous, fixed-size or resizable, no summaries, "
+        "then each of min/max/mean individually put back right, put back WRONG, or left absent); "
+        "followed by replace mode, removal of any subset of the attributes with raw h5py, "
+        "dclab-compress / -repack / -condense / rtdc_copy, filtered export.hdf5, further appends. "
+        "dclab-join of 2-4 files in shuffled order, inputs optionally re-made with raw h5py (small "
+        "chunks, summaries partly absent). Hierarchy child AND grandchild of a root whose feature "
+        "is an HDF5 dataset with / without stored summaries, a dict ndarray, an ancillary feature "
+        "(deform from circ), a temporary feature on a dict or file root, or basin-backed; each "
+        "level's filter selects all / one / some events. Stored attributes after every step are "
+        "compared with the Lean model, reported values with numpy nanmin/nanmax (exact) and the "
+        "exact rational mean (|diff| <= 1e-12 * largest finite magnitude) of the feature's actual "
+        "values (children: the root's values under the datasets' effective filters). RULE for "
+        "foreign input: a summary that other software stored in an input file is trusted by reader "
+        "and copier by design; a stored-but-wrong one is compared with the model only (reported "
+        "as-is, survives copy) and must be healed by replace / export / join. distinct = distinct "
+        "histories with >= 2 steps (or a join / child / basin scenario) containing a NaN or "
+        "more than one append.")
 TRUSTED_BASE = [
     "modelled, not verified: numpy nanmin/nanmax/nanmean/isnan/sum on one array, h5py attribute "
     "and dataset I/O, float64 rounding of the weighted mean (bounded by the 1e-12 tolerance; "
@@ -44,10 +54,14 @@ ASSUMPTIONS = [
     "finite magnitudes <= 2^200 so that float64 sums do not overflow",
     "a hierarchy child is queried after rejuvenate() (dclab's contract); a ChildScalar object "
     "kept across a refresh is stale by design",
+    "summaries stored in an input file by other software are absent or true (Trusted); wrong "
+    "ones are reported as stored until the feature is re-written or exported",
 ]
 NOT_PROVED = [
     "equality of the float64 result with the exact rational mean (tolerance comparison only)",
     "dclab-join's 'time'/'frame'/'index_online' offsets (C09); mapped basins (C07)",
+    "composition of hierarchy filters over levels is read from the datasets (C04), the model sees "
+    "the composed selection of root events",
     "that cli.compress/repack/condense/export reach the copier/writer the way `Hist` composes "
     "them is correspondence-only",
 ]
@@ -138,7 +152,7 @@ def gen_vals(rng, n, feat):
         else:
             v = rng.randint(1, 1023) * 2.0 ** -rng.randint(20, 60)
         out.append(v)
-    pat = rng.choice(["none", "prefix", "suffix", "isolated", "all", "random", "random"])
+    pat = rng.choice(["none", "prefix", "suffix", "isolated", "all", "random", "random", "block"])
     if pat == "prefix":
         k = rng.randint(1, n)
         out[:k] = [math.nan] * k
@@ -151,6 +165,11 @@ def gen_vals(rng, n, feat):
         out = [math.nan] * n
     elif pat == "random":
         out = [math.nan if rng.random() < 0.35 else v for v in out]
+    elif pat == "block":
+        # NaNs concentrated in one stretch (e.g. one HDF5 chunk)
+        k = rng.randint(1, max(1, n - 1))
+        a = rng.randint(0, n - k)
+        out[a:a + k] = [math.nan] * k
     if rng.random() < 0.12:
         out[rng.randrange(n)] = rng.choice([math.inf, -math.inf])
         if rng.random() < 0.3:
@@ -207,21 +226,45 @@ def gen_mask(rng):
     return m if "1" in m else "1" + m[1:]
 
 
+def gen_raw(rng, feat, nmax):
+    """a dataset made with raw h5py: explicit small chunks (several chunks, ragged last chunk,
+    one chunk, chunk > len, contiguous), no summaries; some are put back right or wrong"""
+    n = rng.choice([1, 2, rng.randint(1, nmax), rng.randint(3, nmax), rng.randint(3, nmax)])
+    vals = gen_vals(rng, n, feat)
+    chunk = rng.choice([1, 2, 3, 5, 7, n, n + 3, None])
+    resizable = True if (chunk or 0) > n else rng.random() < 0.5
+    ops = [["raw", vals, chunk, resizable]]
+    for k in range(3):
+        r = rng.random()
+        if r < 0.25:
+            ops.append(["poke", k, "true"])          # the right value stored by the foreign tool
+        elif r < 0.35:
+            ops.append(["poke", k, gen_vals(rng, 1, feat)[0]])   # a WRONG value (mirror only)
+    return ops, n, resizable
+
+
 def gen_file_case(rng, thorough):
     feat = rng.choice(FEATS_FLOAT * 3 + FEATS_INT)
     nmax = 24 if thorough else 14
-    ops = gen_writes(rng, feat, nmax)
-    if rng.random() < 0.2:
+    # small CHUNK_SIZE_BYTES: scalar datasets written by dclab get 10-event chunks
+    cb = rng.choice([1, 1, 2 ** 20])
+    if cb == 1 and rng.random() < 0.6:
+        nmax = 36
+    appendable = True
+    if rng.random() < 0.3:
+        ops, n, appendable = gen_raw(rng, feat, nmax)
+    else:
+        ops = gen_writes(rng, feat, nmax)
+    if rng.random() < 0.3:
         # summaries removed, then completed by a copy (and possibly removed / copied again)
         ops.append(["strip", rng.choice(["001", "111", "110", "011", "101", "100", "010"])])
         ops.append(["copy", rng.choice(["compress", "repack", "condense", "rtdc_copy"])])
         if rng.random() < 0.3:
             ops.append(["export", gen_mask(rng)])
-        return {"kind": "file", "feat": feat, "ops": ops}
+        return {"kind": "file", "feat": feat, "ops": ops, "cb": cb}
     # datasets created by rtdc_copy have no `maxshape`: appending to them raises RuntimeError
     # (observation O11, a limitation, not a wrong summary) - appends follow only writer output
-    appendable = True
-    n = sum(len(o[1]) for o in ops)
+    n = sum(len(o[1]) for o in ops if o[0] in ("write", "raw"))
     for _ in range(rng.choice([0, 0, 1, 1, 2, 3, 4])):
         r = rng.random()
         if r < 0.25:
@@ -241,7 +284,7 @@ def gen_file_case(rng, thorough):
             more = gen_writes(rng, feat, 6)
             n += sum(len(o[1]) for o in more)
             ops += more
-    return {"kind": "file", "feat": feat, "ops": ops}
+    return {"kind": "file", "feat": feat, "ops": ops, "cb": cb}
 
 
 def gen_join_case(rng):
@@ -252,15 +295,35 @@ def gen_join_case(rng):
         files.append([w[1] for w in gen_writes(rng, feat, 7)])
     order = list(range(k))
     rng.shuffle(order)
+    # some inputs are re-made with raw h5py: [chunk, strip bits]
+    raw = [[rng.choice([1, 2, 3, 5]), rng.choice(["111", "001", "000", "110"])]
+           if rng.random() < 0.4 else None for _ in range(k)]
     return {"kind": "join", "feat": feat, "files": files, "order": order,
-            "strip_first": rng.random() < 0.3}
+            "strip_first": rng.random() < 0.3, "raw": raw, "cb": rng.choice([1, 2 ** 20])}
+
+
+CONTAINERS = ["hdf5", "hdf5-stripped", "dict", "ancillary", "temporary", "temporary-hdf5", "basin"]
+
+
+def gen_fspec(rng):
+    """filter of one hierarchy level: nothing filtered out / one event left / some events"""
+    r = rng.random()
+    if r < 0.4:
+        return "all"
+    if r < 0.55:
+        return "one:%d" % rng.randrange(50)
+    return gen_mask(rng)
 
 
 def gen_child_case(rng):
-    feat = rng.choice(FEATS_FLOAT)
-    n = rng.randint(1, 12)
-    return {"kind": "child", "feat": feat, "writes": composition(rng, gen_vals(rng, n, feat)),
-            "masks": [gen_mask(rng) for _ in range(rng.randint(1, 4))]}
+    cont = rng.choice(CONTAINERS)
+    feat = {"ancillary": "deform", "temporary": "verif_tmp",
+            "temporary-hdf5": "verif_tmp"}.get(cont) or rng.choice(FEATS_FLOAT)
+    n = rng.choice([1, 2, rng.randint(1, 14), rng.randint(3, 14)])
+    vals = gen_vals(rng, n, "deform")
+    return {"kind": "child", "feat": feat, "container": cont,
+            "writes": composition(rng, vals),
+            "steps": [[gen_fspec(rng), gen_fspec(rng)] for _ in range(rng.randint(1, 3))]}
 
 
 def gen_basin_case(rng):
@@ -271,6 +334,10 @@ def gen_basin_case(rng):
 
 
 def eff_mask(mask, n):
+    if mask == "all":
+        return [True] * n
+    if mask.startswith("one:"):
+        return [i == int(mask[4:]) % n for i in range(n)]
     m = [mask[i % len(mask)] == "1" for i in range(n)]
     if n and not any(m):
         m[0] = True
@@ -278,28 +345,51 @@ def eff_mask(mask, n):
 
 
 # ---- model lines ------------------------------------------------------------------------
-def model_lines(case):
+def bits(m):
+    return "".join("1" if b else "0" for b in m)
+
+
+def true_summary(vals, k):
+    mn, mx, mean, _scale = exact_truth([untok(t) for t in vals])
+    v = (mn, mx, mean)[k]
+    if isinstance(v, str):
+        return v
+    return f"{v.numerator}/{v.denominator}" if v.denominator != 1 else str(v.numerator)
+
+
+def model_lines(case, res=None):
     """protocol lines and, per line, a tag telling how to compare the answer"""
     lines = []
     kind = case["kind"]
     if kind == "file":
         lines.append(("new", None))
         n = 0
+        cur = []
         for op in case["ops"]:
-            if op[0] == "write":
+            if op[0] == "raw":
+                lines.append(("raw " + " ".join(op[1]), None))
+                n = len(op[1])
+                cur = list(op[1])
+            elif op[0] == "poke":
+                v = true_summary(cur, op[1]) if op[2] == "true" else op[2]
+                lines.append((f"poke {op[1]} {v}", None))
+            elif op[0] == "write":
                 lines.append(("write " + " ".join(op[1]), None))
                 n += len(op[1])
+                cur += list(op[1])
             elif op[0] == "replace":
                 lines.append(("replace " + " ".join(op[1]), None))
                 n = len(op[1])
+                cur = list(op[1])
             elif op[0] == "strip":
                 lines.append(("strip " + op[1], None))
             elif op[0] == "copy":
                 lines.append(("copy", None))
             elif op[0] == "export":
                 m = eff_mask(op[1], n)
-                lines.append(("export " + "".join("1" if b else "0" for b in m), None))
+                lines.append(("export " + bits(m), None))
                 n = sum(m)
+                cur = [v for v, b in zip(cur, m) if b]
             lines.append(("stored", "stored"))
         lines.append(("report", "report"))
     elif kind == "join":
@@ -309,13 +399,15 @@ def model_lines(case):
             lines.append(("stored", "stored"))
         lines.append(("report", "report"))
     elif kind == "child":
-        vals = sum(case["writes"], [])
-        lines.append(("child " + " ".join(vals), None))
-        for m in case["masks"]:
-            e = eff_mask(m, len(vals))
-            lines.append(("mask " + "".join("1" if b else "0" for b in e), None))
-            lines.append(("rejuv", None))
-            lines.append(("query", "query"))
+        # the root's values and the effective filters are read from the implementation
+        if not res or "root" not in res:
+            return [("child", None)]
+        lines.append(("child " + " ".join(res["root"]), None))
+        for st in res["steps"]:
+            for key in ("e1", "comp"):
+                lines.append(("mask " + st[key], None))
+                lines.append(("rejuv", None))
+                lines.append(("query", "query"))
     elif kind == "basin":
         lines.append(("new", None))
         for w in case["writes"]:
@@ -405,13 +497,69 @@ def run_impl(case, wd):
     kind = case["kind"]
     out = {"stored": []}
     w = _W()
+    from dclab.rtdc_dataset import writer as _writer
+    old_cb = _writer.CHUNK_SIZE_BYTES
+    _writer.CHUNK_SIZE_BYTES = case.get("cb", old_cb)
+    try:
+        return _run_impl(case, wd, out, w)
+    finally:
+        _writer.CHUNK_SIZE_BYTES = old_cb
+
+
+def make_raw(path, feat, toks, chunk, resizable, meta_i=0):
+    """dataset `events/<feat>` created with raw h5py in a file carrying dclab metadata"""
+    dclab = common.import_dclab()
+    import h5py
+    if not pathlib.Path(path).exists():
+        with dclab.RTDCWriter(path, mode="reset") as hw:
+            hw.store_metadata(_meta(meta_i))
+    arr = _arr(feat, toks)
+    if feat in FEATS_INT and feat != "frame":
+        arr = arr.astype(np.uint32)
+    with h5py.File(path, "a") as h5:
+        ev = h5.require_group("events")
+        if feat in ev:
+            del ev[feat]
+        kw = {}
+        if chunk and chunk > len(arr):
+            resizable = True      # h5py: chunks larger than the data need a resizable dataset
+        if chunk:
+            kw["chunks"] = (chunk,)
+        if resizable:
+            kw["maxshape"] = (None,)
+            kw.setdefault("chunks", (max(1, len(arr)),))
+        ev.create_dataset(feat, data=arr, **kw)
+        h5.attrs["experiment:event count"] = len(arr)
+
+
+def _run_impl(case, wd, out, w):
+    dclab = common.import_dclab()
+    import h5py
+    from dclab import cli
+    feat = case["feat"]
+    kind = case["kind"]
     try:
         if kind == "file":
             path = wd / "f0.rtdc"
             gen_i = 0
             exists = False
             for op in case["ops"]:
-                if op[0] in ("write", "replace"):
+                if op[0] == "raw":
+                    w.close()
+                    make_raw(path, feat, op[1], op[2], op[3])
+                    exists = True
+                elif op[0] == "poke":
+                    w.close()
+                    if not exists:
+                        return {"invalid": True}
+                    with h5py.File(path, "a") as h5:
+                        d = h5["events"][feat]
+                        if op[2] == "true":
+                            fn = (np.nanmin, np.nanmax, np.nanmean)[op[1]]
+                            d.attrs[("min", "max", "mean")[op[1]]] = fn(d[:])
+                        else:
+                            d.attrs[("min", "max", "mean")[op[1]]] = untok(op[2])
+                elif op[0] in ("write", "replace"):
                     mode = "append" if op[0] == "write" else "replace"
                     if not exists:
                         hw = w.get(path, "reset", keep=False)
@@ -424,6 +572,12 @@ def run_impl(case, wd):
                         exists = True
                     else:
                         hw = w.get(path, mode, keep=bool(op[2]))
+                    if mode == "append" and feat in hw.h5file.get("events", {}) \
+                            and hw.h5file["events"][feat].maxshape[0] is not None:
+                        # datasets made by rtdc_copy / fixed-size foreign datasets cannot be
+                        # appended to (RuntimeError; observation O11) - not a history to judge
+                        w.close()
+                        return {"invalid": True}
                     hw.store_feature(feat, _arr(feat, op[1]))
                     hw.h5file.flush()
                 else:
@@ -477,10 +631,20 @@ def run_impl(case, wd):
                 p = wd / f"in{i}.rtdc"
                 write_file(p, feat, writes, meta_i=i)
                 paths.append(p)
+            for i, spec in enumerate(case.get("raw") or []):
+                if spec:
+                    make_raw(paths[i], feat, sum(case["files"][i], []), spec[0], False, meta_i=i)
+                    with h5py.File(paths[i], "a") as h5:
+                        d = h5["events"][feat]
+                        for bit, k, fn in zip(spec[1], ("min", "max", "mean"),
+                                              (np.nanmin, np.nanmax, np.nanmean)):
+                            if bit == "0":
+                                d.attrs[k] = fn(d[:])
             if case.get("strip_first"):
                 with h5py.File(paths[0], "a") as h5:
                     for k in ("min", "max", "mean"):
-                        del h5["events"][feat].attrs[k]
+                        if k in h5["events"][feat].attrs:
+                            del h5["events"][feat].attrs[k]
             po = wd / "joined.rtdc"
             cli.join(paths_in=[paths[i] for i in case["order"]], path_out=po)
             # stored attributes after each appended file cannot be observed; only the final ones
@@ -488,20 +652,7 @@ def run_impl(case, wd):
             with dclab.new_dataset(po) as ds:
                 out.update(final_report(ds, feat))
         elif kind == "child":
-            path = wd / "p.rtdc"
-            write_file(path, feat, case["writes"])
-            out["queries"] = []
-            with dclab.new_dataset(path) as ds:
-                ch = dclab.new_dataset(ds)
-                for m in case["masks"]:
-                    em = np.array(eff_mask(m, len(ds)))
-                    ds.filter.manual[:] = em
-                    ch.rejuvenate()
-                    f = ch[feat]
-                    # oracle data: the parent's events selected by its current filter
-                    out["queries"].append({"rep": [f.min(), f.max(), f.mean()],
-                                           "data": np.array(ds[feat][:])[em], "n": len(ch),
-                                           "child_data": np.array(f[:])})
+            out.update(run_child(case, wd))
         elif kind == "basin":
             pa = wd / "a.rtdc"
             write_file(pa, feat, case["writes"])
@@ -529,18 +680,97 @@ def run_impl(case, wd):
     return out
 
 
+def open_root(case, wd):
+    """the root dataset of a hierarchy with the feature held in the requested kind of container"""
+    dclab = common.import_dclab()
+    import h5py
+    cont, feat = case["container"], case["feat"]
+    toks = sum(case["writes"], [])
+    arr = np.array([untok(t) for t in toks], dtype=np.float64)
+    n = len(arr)
+    time = np.arange(n) / 8.0
+    if cont in ("temporary", "temporary-hdf5") and not dclab.definitions.feature_exists("verif_tmp"):
+        dclab.register_temporary_feature("verif_tmp")
+    if cont in ("hdf5", "hdf5-stripped"):
+        path = wd / "p.rtdc"
+        write_file(path, feat, case["writes"])
+        if cont == "hdf5-stripped":
+            with h5py.File(path, "a") as h5:
+                for k in ("min", "max", "mean"):
+                    del h5["events"][feat].attrs[k]
+        return dclab.new_dataset(path)
+    if cont == "dict":
+        return dclab.new_dataset({feat: arr, "time": time})
+    if cont == "ancillary":
+        # deform is computed from circ (1 - circ)
+        return dclab.new_dataset({"circ": 1.0 - arr, "time": time})
+    if cont == "temporary":
+        ds = dclab.new_dataset({"time": time, "area_um": time + 1})
+        dclab.set_temporary_feature(rtdc_ds=ds, feature="verif_tmp", data=arr)
+        return ds
+    if cont == "temporary-hdf5":
+        path = wd / "p.rtdc"
+        write_file(path, "area_um", [[tok(x + 1) for x in time.tolist()]])
+        ds = dclab.new_dataset(path)
+        dclab.set_temporary_feature(rtdc_ds=ds, feature="verif_tmp", data=arr)
+        return ds
+    if cont == "basin":
+        pa, pb = wd / "a.rtdc", wd / "b.rtdc"
+        write_file(pa, feat, case["writes"])
+        with dclab.RTDCWriter(pb, mode="reset") as hw:
+            hw.store_metadata(_meta())
+            hw.store_feature("time", time)
+            hw.store_basin("verif", "file", "hdf5", [pa], basin_feats=[feat])
+        return dclab.new_dataset(pb)
+    raise ValueError(cont)
+
+
+def run_child(case, wd):
+    """child and grandchild of a root; the effective filters are read from the datasets"""
+    dclab = common.import_dclab()
+    feat = case["feat"]
+    res = {"steps": []}
+    ds = open_root(case, wd)
+    try:
+        root = np.array(ds[feat][:], dtype=np.float64)
+        res["root"] = [tok(v) for v in root.tolist()]
+        ch = dclab.new_dataset(ds)
+        gc = dclab.new_dataset(ch)
+        for f1, f2 in case["steps"]:
+            ds.filter.manual[:] = np.array(eff_mask(f1, len(ds)))
+            ch.rejuvenate()
+            ch.filter.manual[:] = np.array(eff_mask(f2, len(ch)))
+            gc.rejuvenate()
+            e1 = np.array(ds.filter.all, dtype=bool)
+            e2 = np.array(ch.filter.all, dtype=bool)
+            comp = np.zeros(len(root), dtype=bool)
+            comp[np.where(e1)[0][e2]] = True
+            fc, fg = ch[feat], gc[feat]
+            res["steps"].append({
+                "e1": bits(e1), "comp": bits(comp),
+                "ch": [fc.min(), fc.max(), fc.mean()], "gc": [fg.min(), fg.max(), fg.mean()],
+                "ch_data": root[e1], "gc_data": root[comp],
+                "parent_type": type(ds[feat]).__name__})
+    finally:
+        try:
+            ds.close() if hasattr(ds, "close") else None
+        except Exception:
+            pass
+    return res
+
+
 # ---- decisions --------------------------------------------------------------------------
-def oracle(rep, data):
-    """property's own oracle; returns list of complaints"""
+def oracle(rep, data, skip=()):
+    """property's own oracle; returns list of complaints (`skip`: summaries not claimed)"""
     bad = []
     if len(data) == 0:
         return bad
     mn, mx, mean, scale = exact_truth(data)
-    if tok(rep[0]) != mn:
+    if 0 not in skip and tok(rep[0]) != mn:
         bad.append(f"min() = {rep[0]!r}, nanmin of the data = {untok(mn)!r}")
-    if tok(rep[1]) != mx:
+    if 1 not in skip and tok(rep[1]) != mx:
         bad.append(f"max() = {rep[1]!r}, nanmax of the data = {untok(mx)!r}")
-    if not close_mean(rep[2], mean, scale):
+    if 2 not in skip and not close_mean(rep[2], mean, scale):
         bad.append(f"mean() = {float(rep[2])!r}, nanmean of the data = "
                    f"{mean if isinstance(mean, str) else float(mean)!r}")
     return bad
@@ -553,17 +783,35 @@ def spec_check(case, res):
         return ["exception: " + res["error"]]
     if case["kind"] == "child":
         bad = []
-        for q in res["queries"]:
-            bad += oracle(q["rep"], q["data"])
+        for st in res["steps"]:
+            bad += ["child: " + b for b in oracle(st["ch"], st["ch_data"])]
+            bad += ["grandchild: " + b for b in oracle(st["gc"], st["gc_data"])]
         return bad
-    return oracle(res["rep"], res["data"])
+    return oracle(res["rep"], res["data"], skip=tainted(case))
+
+
+def tainted(case):
+    """summaries that a foreign tool stored with a (possibly) wrong value and that nothing has
+    re-computed since.  RULE: a stored summary of an input file is trusted by the reader and
+    by the copier (by design); the property is claimed for summaries dclab computed itself."""
+    t = set()
+    if case["kind"] != "file":
+        return t
+    for op in case["ops"]:
+        if op[0] == "poke" and op[2] != "true":
+            t.add(op[1])
+        elif op[0] == "strip":
+            t -= {k for k in range(3) if op[1][k] == "1"}
+        elif op[0] in ("replace", "export", "raw"):
+            t = set()
+    return t
 
 
 def mirror_check(case, res, answers):
     """compare with the model's impl layer; returns complaint or None"""
     if res.get("invalid") or "error" in res:
         return None
-    tags = [t for (_l, t) in model_lines(case)]
+    tags = [t for (_l, t) in model_lines(case, res)]
     si = 0
     qi = 0
     for tag, ans in zip(tags, answers):
@@ -594,9 +842,10 @@ def mirror_check(case, res, answers):
                             f"model={m}")
         elif tag in ("report", "query"):
             if tag == "query":
-                q = res["queries"][qi]
+                st = res["steps"][qi // 2]
+                which = "ch" if qi % 2 == 0 else "gc"
                 qi += 1
-                rep, data = q["rep"], q["data"]
+                rep, data = st[which], st[which + "_data"]
                 m_rep = ans.split()
             else:
                 rep, data = res["rep"], res["data"]
@@ -614,7 +863,7 @@ def mirror_check(case, res, answers):
 def is_nontrivial(case):
     if case["kind"] != "file":
         return True
-    toks = [t for op in case["ops"] if op[0] in ("write", "replace") for t in op[1]]
+    toks = [t for op in case["ops"] if op[0] in ("write", "replace", "raw") for t in op[1]]
     return len(case["ops"]) >= 2 and ("nan" in toks or
                                       sum(1 for o in case["ops"] if o[0] == "write") > 1)
 
@@ -628,7 +877,7 @@ def shrink(case, wd):
     if c["kind"] == "file":
         c["ops"] = common.ddmin(c["ops"], lambda ops: fails(dict(c, ops=ops)), max_tests=120)
         for i, op in enumerate(c["ops"]):
-            if op[0] in ("write", "replace") and len(op[1]) > 1:
+            if op[0] in ("write", "replace", "raw") and len(op[1]) > 1:
                 def f2(vals, i=i):
                     ops = copy.deepcopy(c["ops"])
                     ops[i][1] = vals
@@ -636,7 +885,7 @@ def shrink(case, wd):
                 c["ops"][i][1] = common.ddmin(op[1], f2, max_tests=60)
         # simplify the numbers
         for i, op in enumerate(c["ops"]):
-            if op[0] in ("write", "replace"):
+            if op[0] in ("write", "replace", "raw"):
                 for j, t in enumerate(op[1]):
                     if t not in ("nan", "+inf", "-inf"):
                         for simple in ("1", "3"):
@@ -659,7 +908,7 @@ def describe(case):
     d = copy.deepcopy(case)
     if d["kind"] == "file":
         d["readable"] = [[op[0], [untok(t) if t not in ("nan", "+inf", "-inf") else t for t in op[1]]]
-                         if op[0] in ("write", "replace") else op for op in d["ops"]]
+                         + op[2:] if op[0] in ("write", "replace", "raw") else op for op in d["ops"]]
     return d
 
 
@@ -675,6 +924,10 @@ CORPUS = [
                                                 ["write", ["+inf"], False]]},
     {"kind": "join", "feat": "deform", "files": [[["1", "nan"]], [["3"]]], "order": [1, 0],
      "strip_first": False},
+    {"kind": "file", "feat": "deform", "cb": 2 ** 20,
+     "ops": [["raw", ["1", "nan", "3", "5"], 2, False], ["copy", "compress"]]},    # chunk-wise completion
+    {"kind": "child", "feat": "deform", "container": "dict", "writes": [["1", "nan", "3"]],
+     "steps": [["all", "all"]]},                                  # nothing filtered out, ndarray parent
     {"kind": "file", "feat": "fl1_max", "ops": [["write", ["5", "7"], False], ["write", ["0"], True],
                                                 ["export", "011"], ["copy", "condense"]]},
 ]
@@ -702,8 +955,8 @@ def run(ctx):
     model = None
     if ctx.lean_ok:
         lines, spans = [], []
-        for c in cases:
-            ml = [l for (l, _t) in model_lines(c)]
+        for c, r in zip(cases, results):
+            ml = [l for (l, _t) in model_lines(c, r)]
             spans.append((len(lines), len(lines) + len(ml)))
             lines += ml
         out = ctx.lean("C20", lines)
@@ -720,11 +973,20 @@ def run(ctx):
                       "model": model[idx][-1] if model else None}
         ctx.case(json.dumps(c, sort_keys=True), nontrivial=nt, sample=sample)
         ctx.stat("kind=" + c["kind"])
+        if c["kind"] == "child":
+            ctx.stat("container=" + c["container"])
+            for st in res.get("steps", []):
+                ctx.stat("parent_feature_type=" + st["parent_type"])
+                ctx.stat("child_sees_all", int("0" not in st["e1"]))
+                ctx.stat("grandchild_sees_all", int(st["e1"] == st["comp"]))
         if c["kind"] == "file":
             for op in c["ops"]:
                 ctx.stat("op=" + (op[0] if op[0] != "copy" else "copy:" + op[1]))
+                if op[0] == "raw":
+                    nchunks = 1 if not op[2] else -(-len(op[1]) // op[2])
+                    ctx.stat("raw_chunks=" + ("1" if nchunks <= 1 else "2+"))
             ctx.stat("feat=" + ("int" if c["feat"] in FEATS_INT else "float"))
-            toks = [t for op in c["ops"] if op[0] in ("write", "replace") for t in op[1]]
+            toks = [t for op in c["ops"] if op[0] in ("write", "replace", "raw") for t in op[1]]
             ctx.stat("with_nan", int("nan" in toks))
             ctx.stat("with_inf", int("+inf" in toks or "-inf" in toks))
             ctx.stat("appends", sum(1 for o in c["ops"] if o[0] == "write"))
